@@ -29,89 +29,104 @@ Theorem C12_source_shape : shape_as_expected = true.
 Proof. exact shape_ok. Qed.
 Print Assumptions C12_source_shape.
 
-(* (1) TOTALITY, server endpoint: for every history of inputs (batches of events of every kind,
-   h2 protocol errors, connection loss, handlers starting/finishing, Server.close, in any order),
-   nothing is ever raised out of data_received -- provided the events obey what h2 guarantees
-   (h2_discipline: a stream is reset at most once and opened at most once; event_wf: lengths are
-   not negative).  The driver checks both on every event trace of the real h2. *)
+(* (1) TOTALITY, either endpoint, FULL: for every history of inputs (batches of events of every
+   kind, h2 protocol errors, undecodable header blocks, connection loss, calls / handlers starting
+   and finishing, Server.close, in any order) nothing is ever raised out of data_received.  The only
+   hypothesis is event_wf: what h2 guarantees about the numbers in its events (DataReceived for a
+   positive stream id with non-negative lengths -- h2.acknowledge_received_data raises ValueError
+   otherwise; an OtherEvent is of another class); the driver checks it on every real event.
+   No "one StreamReset per stream" discipline is needed any more: server.Handler.cancel pops with a
+   default (was: KeyError on a second/late StreamReset, theorem ..._refuted). *)
+Theorem C12_endpoint_total :
+  forall ro h, forallb input_wf h = true ->
+  exists s', run (init ro) h = Ok s' /\ inv_b s' = true.
+Proof. exact endpoint_total. Qed.
+Print Assumptions C12_endpoint_total.
+
 Theorem C12_server_total :
-  forall h, forallb input_wf h = true -> h2_discipline h ->
-  exists s', run (init Server) h = Ok s' /\ inv_b s' = true /\ sinv_b (resets_of h) s' = true.
+  forall h, forallb input_wf h = true ->
+  exists s', run (init Server) h = Ok s' /\ inv_b s' = true.
 Proof. exact server_total. Qed.
 Print Assumptions C12_server_total.
 
-(* (1') the same for one batch delivered in ANY state satisfying the two invariants (the driver
-   evaluates inv_b / sinv_b on every real pre-state) *)
-Theorem C12_server_batch_total :
-  forall seen s b, st_role s = Server -> inv_b s = true -> sinv_b seen s = true ->
-  input_wf (IData b) = true -> NoDup (seen ++ resets_ev (events_of (IData b))) ->
-  exists s', data_received s b = Ok s' /\ inv_b s' = true /\
-             sinv_b (seen ++ resets_ev (events_of (IData b))) s' = true.
-Proof. exact server_batch_total. Qed.
-Print Assumptions C12_server_batch_total.
-
-(* (1'') without the h2 discipline the statement is false of the faithful model: a second
-   StreamReset for a stream whose task was popped is a KeyError in server.Handler.cancel.
-   FULL-STRENGTH STATEMENT (false): forall h, forallb input_wf h = true ->
-     exists s', run (init Server) h = Ok s'.
-   h2 4.3.0 never produces that event list (checked on every fuzz trace), so this is a latent
-   fragility, not a reachable failure; the driver replays it below h2 on the real EventsProcessor. *)
-Theorem C12_server_total_without_h2_discipline_refuted :
-  exists h, forallb input_wf h = true /\ run (init Server) h = Raises EKeyError.
-Proof. exact server_total_without_discipline_refuted. Qed.
-Print Assumptions C12_server_total_without_h2_discipline_refuted.
-
-(* (2) TOTALITY, client endpoint.
-   FULL-STRENGTH STATEMENT (false): forall h, forallb input_wf h = true ->
-     exists s', run (init Client) h = Ok s'.
-   Refuted: a RequestReceived event (a server peer sending HEADERS that open an even-numbered
-   stream, which h2 accepts on a client connection) reaches client.Handler.accept, which raises
-   NotImplementedError out of data_received.  The driver replays the witness on the real code. *)
-Theorem C12_client_total_refuted :
-  exists h, forallb input_wf h = true /\ run (init Client) h = Raises ENotImplemented.
-Proof. exact client_total_refuted. Qed.
-Print Assumptions C12_client_total_refuted.
-
-(* (2') the strongest true statement: every history without RequestReceived events *)
-Theorem C12_client_total_partial :
-  forall h, forallb input_wf h = true -> forallb no_request_input h = true ->
-  exists s', run (init Client) h = Ok s' /\ inv_b s' = true.
-Proof. exact client_total_partial. Qed.
-Print Assumptions C12_client_total_partial.
-
-Theorem C12_client_batch_total_partial :
-  forall s b, st_role s = Client -> inv_b s = true ->
-  input_wf (IData b) = true -> no_request_input (IData b) = true ->
+(* (1') one batch delivered in ANY state of either endpoint whose transport is live while its
+   processor is (inv_b; the driver evaluates it on every real pre-state) *)
+Theorem C12_batch_total :
+  forall s b, inv_b s = true -> input_wf (IData b) = true ->
   exists s', data_received s b = Ok s' /\ inv_b s' = true.
-Proof. exact client_batch_total. Qed.
-Print Assumptions C12_client_batch_total_partial.
+Proof. exact batch_total. Qed.
+Print Assumptions C12_batch_total.
+
+(* (1'') a StreamReset for a registered stream whose handler task is no longer in _tasks (already
+   reset, or finished): the wrapper is terminated again, the handler tables are untouched *)
+Theorem C12_late_reset_tolerated :
+  forall rest s sid code remote r,
+  st_role s = Server -> st_closed s = false ->
+  lookup sid (st_reg s) = Some r -> has_live_task sid (st_h s) = false ->
+  exists s', process rest s (StreamReset sid code remote) = Ok s' /\
+    st_h s' = st_h s /\
+    st_reg s' = upd sid (terminated (if remote then RRemoteReset code else RProtocolError) r) (st_reg s).
+Proof. exact late_reset_tolerated. Qed.
+Print Assumptions C12_late_reset_tolerated.
+
+(* (2) TOTALITY, client endpoint, FULL: for every history of inputs -- batches of events of EVERY
+   kind including RequestReceived (a server peer opening a stream), h2 protocol errors, undecodable
+   header blocks, connection loss, calls registering and releasing streams, in any order -- nothing
+   is raised out of data_received.  (Was refuted twice: D21 NotImplementedError from
+   client.Handler.accept, then h2.reset_stream raising when the same chunk had already closed the
+   connection or the stream; both repaired, accept now resets only a `closable` stream.) *)
+Theorem C12_client_total :
+  forall h, forallb input_wf h = true ->
+  exists s', run (init Client) h = Ok s' /\ inv_b s' = true.
+Proof. exact client_total. Qed.
+Print Assumptions C12_client_total.
+
+(* Stream.closable is sufficient for h2.reset_stream not to raise (the h2 model: after a GOAWAY in
+   the batch the connection is CLOSED, after a reset of the stream in the batch the stream is) *)
+Theorem C12_closable_reset_cannot_raise :
+  forall rest s sid, closable rest s sid = true -> h2_reset_stream rest sid = None.
+Proof. exact closable_reset_ok. Qed.
+Print Assumptions C12_closable_reset_cannot_raise.
+
+(* a stream the peer opens towards a client is refused and leaves no trace: registry, every call
+   record, handler and flags are unchanged (the slot-waiter wake-up is set), and RST_STREAM is sent
+   exactly when the stream is still closable *)
+Theorem C12_client_request_refused :
+  forall rest s sid, st_role s = Client -> st_closed s = false -> lookup sid (st_reg s) = None ->
+  exists s', process rest s (RequestReceived sid) = Ok s' /\
+    st_reg s' = st_reg s /\ st_h s' = st_h s /\ st_closed s' = false /\
+    st_tclosed s' = st_tclosed s /\ st_ping s' = st_ping s /\ st_credit s' = st_credit s /\
+    st_waiter s' = true /\
+    st_rst s' = st_rst s ++ (if closable rest s sid then [sid] else []).
+Proof. exact client_request_refused. Qed.
+Print Assumptions C12_client_request_refused.
 
 (* (3) TOLERANCE: events of the kinds HTTP/2 requires an endpoint to ignore (and of any class h2
    may add) leave EVERY state of either endpoint exactly as it was ... *)
 Theorem C12_tolerated_ignored :
-  forall s e, tolerated e = true -> event_wf e = true -> process s e = Ok s.
+  forall rest s e, tolerated e = true -> event_wf e = true -> process rest s e = Ok s.
 Proof. exact tolerated_ignored. Qed.
 Print Assumptions C12_tolerated_ignored.
 
 (* ... wherever they are injected into a batch *)
 Theorem C12_tolerated_anywhere :
-  forall s pre tol post, forallb tolerated tol = true -> forallb event_wf tol = true ->
+  forall pre tol post s, forallb tolerated tol = true -> forallb event_wf tol = true ->
   run_events s (pre ++ tol ++ post) = run_events s (pre ++ post).
 Proof. exact tolerated_anywhere. Qed.
 Print Assumptions C12_tolerated_anywhere.
 
 (* a PING acknowledgement touches the keepalive close timer only *)
 Theorem C12_ping_ack_only_timer :
-  forall s, process s PingAckReceived = Ok (if st_closed s then s else set_ping s false).
+  forall rest s, process rest s PingAckReceived = Ok (if st_closed s then s else set_ping s false).
 Proof. exact ping_ack_only_timer. Qed.
 Print Assumptions C12_ping_ack_only_timer.
 
 (* (3') frames for a stream that already finished (is not registered): registry, every call
    record, handler and flags are unchanged; DataReceived only returns its flow-control credit *)
 Theorem C12_unregistered_stream_tolerated :
-  forall s e sid, inv_b s = true -> event_wf e = true ->
+  forall rest s e sid, inv_b s = true -> event_wf e = true ->
   stream_addressed e = Some sid -> lookup sid (st_reg s) = None ->
-  exists s', process s e = Ok s' /\ same_calls s s' /\
+  exists s', process rest s e = Ok s' /\ same_calls s s' /\
              st_credit s' = st_credit s ++ returned_credit s e.
 Proof. exact unregistered_tolerated. Qed.
 Print Assumptions C12_unregistered_stream_tolerated.
@@ -142,8 +157,17 @@ Theorem C12_closing_batch_shuts_down :
 Proof. exact closing_batch_shuts_down. Qed.
 Print Assumptions C12_closing_batch_shuts_down.
 
+(* a header block h2 cannot decode (UnicodeDecodeError, was D22) takes the same branch *)
+Theorem C12_undecodable_headers_shut_down :
+  forall s, data_received s H2UnicodeDecodeError = data_received s H2ProtocolError.
+Proof. exact undecodable_headers_shut_down. Qed.
+Print Assumptions C12_undecodable_headers_shut_down.
+
+(* run_events_in tail = processing a prefix of a batch whose remaining events `tail` h2 has already
+   digested *)
 Theorem C12_goaway_mid_batch :
-  forall s pre c post s1, run_events s pre = Ok s1 -> st_closed s1 = false ->
+  forall s pre c post s1,
+  run_events_in (ConnectionTerminated c :: post) s pre = Ok s1 -> st_closed s1 = false ->
   run_events s (pre ++ ConnectionTerminated c :: post) = Ok (close_conn (RGoaway c) s1).
 Proof. exact goaway_mid_batch. Qed.
 Print Assumptions C12_goaway_mid_batch.
